@@ -52,6 +52,12 @@ def push_chain_case(rng, vcs=None):
     cur = ent
     for sym in range(1, depth + 1):
         nxt = rng.randrange(n)
+        if rng.random() < 0.3:
+            # the symbol is first REPLACED (by itself or by the bottom symbol's neighbour) in a state that never pops,
+            # and popped one step later
+            mid = rng.randrange(n)
+            trans.append([cur, rng.randrange(k), sym, mid, [sym]])
+            cur = mid
         trans.append([cur, -1 if rng.random() < 0.2 else rng.randrange(k), sym, nxt, []])
         cur = nxt
     for _ in range(rng.randint(0, 2)):
